@@ -31,5 +31,4 @@ theorem nonempty_of_value (s : List Term) (x : Nat) (hx : 1 ≤ x) (h : value s 
 theorem hybrid_nonempty (x K T : Nat) (hK : 1 ≤ K) (hx : 1 ≤ x) : hybrid x K T ≠ [] :=
   nonempty_of_value _ x hx (hybrid_spec x K T hK).1
 
-#print axioms hybrid_nonempty
 end P.Bits
